@@ -822,16 +822,30 @@ def ite(c, a, b):
     return _mk(z3.simplify(z3.If(ct, x, y)), i)
 
 
+def _nan_first(a, b, pick):
+    """numpy's minimum / maximum / min / max propagate NaN (IEEE values only)."""
+    fa = a if isinstance(a, SymFP) else None
+    fb = b if isinstance(b, SymFP) else None
+    if fa is None and fb is None:
+        return pick
+    r = pick
+    if fb is not None:
+        r = ite(fb.isnan(), fb, r)
+    if fa is not None:
+        r = ite(fa.isnan(), fa, r)
+    return r
+
+
 def sym_min(a, b):
     if not (is_sym(a) or is_sym(b)):
         return min(a, b)
-    return ite(a <= b, a, b)
+    return _nan_first(a, b, ite(a <= b, a, b))
 
 
 def sym_max(a, b):
     if not (is_sym(a) or is_sym(b)):
         return max(a, b)
-    return ite(a >= b, a, b)
+    return _nan_first(a, b, ite(a >= b, a, b))
 
 
 def sym_abs(a):
